@@ -220,7 +220,7 @@ class ArgGen:
                 return None
             # a non-ASCII numeric character that starts a word piece (after a non-alphanumeric neighbour) is finding F3
             f3 = any(ch in NUMLIKE and (i == 0 or not w[i - 1].isalpha()) for i, ch in enumerate(w))
-            if f3 and "C04-F3" in _state.get("open", ()) and self.k(3) != 0:
+            if f3 and "C04-F3" in _state.get("open", ()) and self.k(3 * _LEAK) != 0:
                 if self.stats is not None:
                     self.stats.excluded_known["C04-F3"] += 1
                 return None
@@ -272,7 +272,7 @@ class ArgGen:
             src = lit_triple(v, self.pick(["'", '"']))
             if not check_literal(src, v):
                 return None
-            if "\\\n" in v and "C04-F1" in _state.get("open", ()) and self.k(4) != 0:
+            if "\\\n" in v and "C04-F1" in _state.get("open", ()) and self.k(4 * _LEAK) != 0:
                 # recorded finding: mostly avoided so the campaign is not drowned (still drawn 1 in 4,
                 # where the narrow predicate in classify() attributes it)
                 if self.stats is not None:
@@ -361,7 +361,7 @@ class ArgGen:
                 return None      # a dangling && / || is a chain without operand (SyntaxError by design)
             pad = self.pick([" ", " ", "   "])
             f5 = unterminated_triple(raw)
-            if f5 and "C04-F5" in _state.get("open", ()) and self.k(4) != 0:
+            if f5 and "C04-F5" in _state.get("open", ()) and self.k(4 * _LEAK) != 0:
                 self.stats.excluded_known["C04-F5"] += 1
                 return None
             return {"src": "rec!" + pad + raw + self.pick(["", " ", "  "]), "expect": [("rec", [body])], "labels": ["form:macro"], "ctx": {},
@@ -390,7 +390,7 @@ class ArgGen:
             sp = sep()
             if a[:1] in SYMBOLS or a[:1] in NUMLIKE:
                 # recorded finding C04-F4: a symbol-initial bare word is only read correctly after exactly one blank
-                if sp != " " and "C04-F4" in _state.get("open", ()) and self.k(6) != 0:
+                if sp != " " and "C04-F4" in _state.get("open", ()) and self.k(6 * _LEAK) != 0:
                     sp = " "
                     if self.stats is not None:
                         self.stats.excluded_known["C04-F4"] += 1
@@ -479,6 +479,10 @@ def _parse_netstrings(data):
 
 
 _GLUE_ACTIVE = set("~$*?[")
+# recorded shapes are mostly avoided by construction and let through now and then so that each finding is still reported;
+# the thorough tier generates 25 times more, so it lets through proportionally fewer (the stream of *new symptoms of the
+# same root causes* - escape re-interpretation after F1, glue effects of F4 - otherwise never dries up)
+_LEAK = 25 if os.environ.get("VERIF_TIER_EFFECTIVE") == "thorough" else 1
 
 
 def unterminated_triple(text):
@@ -751,6 +755,7 @@ def _replay_case(case):
 
 
 def main(run):
+    os.environ["VERIF_TIER_EFFECTIVE"] = run.tier      # inherited by the spawned workers (see _LEAK)
     _setup(run.scratch)
     common.replay_tier(run, _replay_case)
     os.chdir(common.VERIF)
